@@ -79,7 +79,7 @@ func c10Sequences(t *testing.T) {
 			c10OneSequence(r, rnd, dir, i)
 		}
 	})
-	res.Require("op:new", "op:add", "op:reopen", "grew", "pages>=4", "name:4096", "name:1", "meta:cap", "meta:over-cap-refused", "name:4097-refused", "multi-handle")
+	res.Require("op:new", "op:add", "op:reopen", "grew", "chain>=514", "chain>=700", "pages>=4", "name:4096", "name:1", "meta:cap", "meta:over-cap-refused", "name:4097-refused", "multi-handle")
 	if err := res.Write(); err != nil {
 		t.Fatal(err)
 	}
@@ -90,6 +90,10 @@ func c10OneSequence(r *verifrt.Result, rnd *verifrt.Rand, dir string, i int) {
 	r.Eval()
 	path := filepath.Join(dir, fmt.Sprintf("f%d.v1.count", i))
 	defer os.Remove(path)
+	if i%50 == 7 {
+		c10LongChain(r, rnd, path, i)
+		return
+	}
 	meta := vfGenMeta(rnd)
 	switch rnd.Intn(6) {
 	case 0: // exactly at the cap
@@ -450,4 +454,88 @@ func vfTrunc40(s string) string {
 		return s[:40] + "…"
 	}
 	return s
+}
+
+// c10LongChain: very many names in one hash bucket (a chain far longer than
+// the number of records of a page), written by one handle, looked up and
+// incremented by a second one, then read back.
+func c10LongChain(r *verifrt.Result, rnd *verifrt.Rand, path string, i int) {
+	k := []int{514, 600, 700, 1030}[(i/50)%4]
+	names := vfCollidingNames(rnd, k, verifrt.Pick(rnd, []int{0, 0, 40}))
+	if len(names) < k {
+		r.Inconc("could not find enough colliding names")
+		return
+	}
+	meta := vfGenMeta(rnd)
+	rp := verifrt.CaseReplay(i, map[string]any{"chain": k})
+	a, err := openMapped(path, meta)
+	if err != nil {
+		r.Violate("open-failed", "openMapped failed on a fresh file: "+err.Error(), rp)
+		return
+	}
+	defer func() { a.close() }()
+	model := map[string]uint64{}
+	use := func(m **mappedFile, who string, nm string) bool {
+		v, m1, err := (*m).newCounter(nm)
+		if err != nil || v == nil {
+			r.Violate("newCounter-failed:long-chain", fmt.Sprintf("%s: newCounter of name %d of %d in one bucket failed on a healthy file: %v", who, len(model), k, err), rp)
+			return false
+		}
+		if m1 != nil {
+			(*m).close()
+			*m = m1
+		}
+		v.Add(1)
+		model[nm]++
+		return true
+	}
+	for _, nm := range names {
+		if !use(&a, "writer", nm) {
+			return
+		}
+	}
+	b, err := openMapped(path, meta)
+	if err != nil {
+		r.Violate("reopen-failed", "openMapped failed on an existing valid file: "+err.Error(), rp)
+		return
+	}
+	defer func() { b.close() }()
+	// a process that opens the file later: the oldest records are at the far end of the chain
+	for j := range names {
+		if !use(&b, "second opener", names[(j*7)%len(names)]) {
+			return
+		}
+	}
+	extra := vfCollidingNames(rnd, k+3, 0)[k:]
+	for _, nm := range extra {
+		if _, dup := model[nm]; dup {
+			continue
+		}
+		if !use(&b, "second opener (new name)", nm) {
+			return
+		}
+	}
+	data, err := os.ReadFile(path)
+	if err != nil {
+		r.Inconc("cannot read back: " + err.Error())
+		return
+	}
+	cf, err := verifref.ParseCounterFile(data)
+	if err != nil {
+		r.Violate("layout:"+vfLayoutClass(err), fmt.Sprintf("a file with %d names in one bucket violates the v1 layout: %v", k, err), rp)
+		return
+	}
+	if d := vfDiffCounts(cf.Counts(), model); d != "" {
+		r.Violate("readback-mismatch", fmt.Sprintf("%d names in one bucket: independent decoder reads back something else than was written: %s", k, d), rp)
+		return
+	}
+	if pf, perr := Parse(path, data); perr != nil {
+		r.Violate("library-rejects-own-file", fmt.Sprintf("%d names in one bucket: the library's reader rejects the file: %v", k, perr), rp)
+		return
+	} else if len(pf.Count) != len(model) {
+		r.Violate("library-reads-other-counts", fmt.Sprintf("%d names in one bucket: library reader sees %d counters, written %d", k, len(pf.Count), len(model)), rp)
+		return
+	}
+	r.Hit(fmt.Sprintf("chain>=%d", k))
+	r.Distinct(fmt.Sprintf("long-chain/%d/%d", k, i))
 }
